@@ -36,6 +36,9 @@ CHECKS["C06"] = dict(cat="proof", design="§3 C06, §1.5",
 CHECKS["C18"] = dict(cat="proof", design="§3 C18",
     text="Bezier.eval/deriv, bezier3/7_solve, bezier3/7_traj and bezier_multirotor executed symbolically for enumerated (degree, dimension, derivative order): eval = Bernstein polynomial and end points; deriv(m).eval = m-th CasADi-AD derivative of eval; solver outputs meet every boundary condition for symbolic T>0 (plus fixed-T instances to 1e-9 on |w|<=100), solver denominators non-zero; trajectory outputs are successive derivatives. One polynomial/rational identity per component.",
     note="trusted: CasADi SX/AD/instruction API, encoder (validated per run), Bernstein form, z3. Real arithmetic. Bounds: degree <= 7 (quick) / 9 (thorough), dimension <= 3, derivative order <= 4 (quick) / n (thorough).")
+CHECKS["C10"] = dict(cat="proof", design="§3 C10",
+    text="cyecca.util routines executed on symbolic matrices of bounded dimension: sqrt_covariance_predict (n=2,3): W' lower triangular and W'W^T + W W'^T = FP + PF^T + Q; sqrt_correct ((n_x,n_y) in (1,1),(2,1),(3,1)): Ss Ss^T = HPH^T + R, K S = P H^T, W+ W+^T = (I-KH)P, W+ lower triangular (fresh sqrt atoms reduced modulo y^2 = radicand); LDL^T/UDU^T (n<=4): reconstruction, unit triangular, D diagonal; rk4: exact for f cubic in t and the h-derivatives of one step at h=0 equal the total derivatives of the exact solution up to order 4 for a bivariate cubic f with symbolic coefficients and for a 2-d linear system.",
+    note="trusted: CasADi SX/AD/QR/inverse, encoder (validated per run), z3. Real arithmetic; pivots/diagonals assumed non-zero. NOT decided: sqrt_correct with n_y >= 2 (one entry of the (2,2) case times out), n=1 for sqrt_covariance_predict (the routine raises for a scalar state; outside the range), larger dimensions than stated. rk4 constants within 2 ulp of p/q are read as p/q (stated).")
 CHECKS["C04"] = dict(cat="proof", design="§3 C04",
     text="Ad/ad/bracket of every group/algebra executed symbolically; (Ad_X y)^ = M(X) y^ M(X^-1), Ad homomorphism and inverse, ad = bracket = matrix commutator, antisymmetry, Jacobi, block-diagonal direct-sum ad, and Ad_exp(x) = expm(ad_x) in closed form (Rodrigues / Barfoot quartic) are proved per entry; wrong shapes and crashes of offered operations are violations.",
     note="trusted: as C01 plus the closed forms of expm(ad) and the theorem Ad_{exp A} = expm(ad_A) (used for SE_2(3)/Euler where exp ends in from_Matrix). Operations raising NotImplementedError are out of scope as the property states.")
